@@ -467,6 +467,17 @@ Definition checkin_failed (r : nat) (fairy_was_created : bool) (s : st) : res un
 Definition reraise_after {A} (orig : exn) (h : res unit * st) : res A * st :=
   match h with (Ok _, s) => (Raise orig, s) | (Raise e, s) => (Raise e, s) end.
 
+(* fairy = _ConnectionFairy(pool, dbapi_connection, rec, echo); rec.fairy_ref = weakref.ref(fairy, ...) *)
+Definition new_fairy (c r : nat) (s : st) : nat * st :=
+  let f := nfairies s in
+  let s3 := set_nfairies s (S f) in
+  let s4 := set_f_dbc s3 (upd (f_dbc s3) f (Some c)) in
+  let s5 := set_f_rec s4 (upd (f_rec s4) f (Some r)) in
+  let s6 := set_f_orig s5 (upd (f_orig s5) f r) in
+  let s7 := set_f_counter s6 (upd (f_counter s6) f 0) in
+  let s8 := set_f_dead s7 (upd (f_dead s7) f false) in
+  (f, set_r_fairy s8 (upd (r_fairy s8) r (Some f))).
+
 (* _ConnectionRecord.checkout *)
 Definition record_checkout (s : st) : res nat * st :=
   match do_get s with
@@ -474,15 +485,7 @@ Definition record_checkout (s : st) : res nat * st :=
   | (Ok r, s1) =>
       match get_connection r s1 with
       | (Raise err, s2) => reraise_after err (checkin_failed r false s2)
-      | (Ok c, s2) =>
-          let f := nfairies s2 in
-          let s3 := set_nfairies s2 (S f) in
-          let s4 := set_f_dbc s3 (upd (f_dbc s3) f (Some c)) in
-          let s5 := set_f_rec s4 (upd (f_rec s4) f (Some r)) in
-          let s6 := set_f_orig s5 (upd (f_orig s5) f r) in
-          let s7 := set_f_counter s6 (upd (f_counter s6) f 0) in
-          let s8 := set_f_dead s7 (upd (f_dead s7) f false) in
-          (Ok f, set_r_fairy s8 (upd (r_fairy s8) r (Some f)))
+      | (Ok c, s2) => let (f, s3) := new_fairy c r s2 in (Ok f, s3)
       end
   end.
 
